@@ -4,6 +4,7 @@ import (
 	"fmt"
 	"go/ast"
 	"go/constant"
+	"go/token"
 	"go/types"
 	"math"
 	"regexp"
@@ -358,16 +359,31 @@ func extractDeferSignature(d *ssa.Defer) string {
 
 func extractClosureSignature(v *ssa.MakeClosure) string {
 	if fn, ok := v.Fn.(*ssa.Function); ok && fn != nil {
-		return fmt.Sprintf("closure:%s", fn.Signature.String())
+		return fmt.Sprintf("closure:%s", nameFreeSignature(fn.Signature))
 	}
 	return ""
+}
+
+// nameFreeSignature renders a signature by its parameter and result TYPES only.
+// types.Signature.String() prints parameter names (func(x int) int), which would
+// make the call profile of a function depend on what its closures call their
+// parameters.
+func nameFreeSignature(sig *types.Signature) string {
+	strip := func(t *types.Tuple) *types.Tuple {
+		vars := make([]*types.Var, t.Len())
+		for i := range vars {
+			vars[i] = types.NewVar(token.NoPos, nil, "", t.At(i).Type())
+		}
+		return types.NewTuple(vars...)
+	}
+	return types.NewSignatureType(nil, nil, nil, strip(sig.Params()), strip(sig.Results()), sig.Variadic()).String()
 }
 
 func extractFunctionSig(fn *ssa.Function) string {
 	// Fix: Detect anonymous/nested functions to provide stable signatures.
 	// This handles optimizations where simple closures become plain Functions.
 	if fn.Parent() != nil {
-		return fmt.Sprintf("closure:%s", fn.Signature.String())
+		return fmt.Sprintf("closure:%s", nameFreeSignature(fn.Signature))
 	}
 
 	if fn.Pkg != nil {
